@@ -75,11 +75,11 @@ const sizeLimit = 1 << 20
 
 // caseBudget bounds the bytes of case lines written per raw configuration; epochs after the
 // budget is used up are still run and checked by the oracle but produce no case line.
-const caseBudget = 7 << 20
+var caseBudget = 7 << 20
 
 type totals struct {
 	evals, stalls, batches, epochs, configs int
-	distinct                               int
+	distinct                                int
 }
 
 func main() {
@@ -97,9 +97,19 @@ func main() {
 		specs = allConfigs()
 		G = 64
 	}
+	if cfg.Tier != "thorough" {
+		caseBudget = 1500 << 10
+	}
 	start := time.Now()
 	var tot totals
+	failingConfigs := 0
 	for ci, spec := range specs {
+		if failingConfigs >= 2 {
+			// the property already fails on two configurations: the rest of the matrix adds
+			// nothing to the verdict and a broken library makes every configuration slow
+			statCount(st, "skipped:after-two-failing-configurations")
+			continue
+		}
 		// everything random about the configuration is drawn here, before any goroutine starts
 		seed := cfg.Rng.Int63()
 		wd := newWorld(cfg, st, w, gz, ci, spec, G, rand.New(rand.NewSource(seed)))
@@ -108,6 +118,9 @@ func main() {
 		}
 		wd.run()
 		wd.teardown()
+		if wd.failed > 0 {
+			failingConfigs++
+		}
 		tot.evals += int(wd.evals)
 		tot.stalls += int(wd.stalls)
 		tot.batches += int(wd.batches)
